@@ -3,9 +3,9 @@ import re
 from checks import valcomp
 from vlib.proto import unhex
 
-LEAN_TARGETS = ["LyModel.Props.C03", "LyModel.Props.C03Base", "LyModel.Props.C03Union", "LyModel.Props.C03Ident", "LyModel.Props.C03Pattern", "LyModel.Props.C03Dt", "LyModel.Props.C03Hex", "LyModel.Props.C03InstId", "LyModel.Props.C03Bin"]
+LEAN_TARGETS = ["LyModel.Props.C03", "LyModel.Props.C03Base", "LyModel.Props.C03Union", "LyModel.Props.C03Ident", "LyModel.Props.C03Pattern", "LyModel.Props.C03Dt", "LyModel.Props.C03Hex", "LyModel.Props.C03InstId", "LyModel.Props.C03Bin", "LyModel.Props.C03Inet"]
 AUDIT = ["Audit/C03.lean", "Audit/C03Fn.lean"]
-GENERATED = ["ValBounds", "Consts", "ValExt", "ValHex", "ValBin"]
+GENERATED = ["ValBounds", "Consts", "ValExt", "ValHex", "ValBin", "ValInst", "ValInet"]
 LEAN_TARGETS += ["LyModel.Props.C03Fn"]; GENERATED += ["FnUtf8"]     # functions translated from the C source (tools/c2lean.py), bridged in lean/LyModel/Bridge
 ASSUMPTIONS = [
     "libc is modelled, not verified: strtoll/strtoull of glibc 2.36 in the C locale (leading isspace, one optional sign, 0x/0 prefixes for base 0/16, "
@@ -16,6 +16,8 @@ ASSUMPTIONS = [
     "derived-type plug-ins of ietf-inet-types and of ietf-yang-types other than date-and-time and the hex-string family (hex-string, mac-address, phys-address, uuid), "
     "leafref, xpath1.0: laws on the implementation only; instance-identifier: data nodes with string-typed keys / leaf-lists, require-instance false; "
     "binary: the LY_VALUE_CANON store path is not reachable through the harness",
+    "ietf-inet-types address / prefix plug-ins: Inet.pton4/pton6/ntop4/ntop6 are inet_pton / inet_ntop of glibc 2.36 for AF_INET / AF_INET6, isalnum is the one of the "
+    "C locale; modelled, not verified; the unions ip-address / ip-prefix / ip-address-no-zone: laws on the implementation only",
     "date-and-time: TZ=UTC (the harness sets it); the typedef pattern and the Unicode 14 Nd table are constants of the model",
     "union members are the modelled types (integers, decimal64, boolean, enumeration, bits, string with length and patterns); identityref over generated module "
     "sets whose module names are distinct from every other module of the context; all identities enabled (no if-feature), all modules implemented",
@@ -26,6 +28,8 @@ TRUSTED = ["tools/extractors/val.py (bounds, LYB sizes, executed lyplg_type_chec
            "tools/extractors/valx.py (shape of the union / identityref / string-pattern / date-and-time functions, repair switches)",
            "tools/extractors/valhex.py (typedef patterns of the hex-string family, shape of the plug-in)",
            "tools/extractors/valbin.py (base64 tables, shape of plugins_types/binary.c)",
+           "tools/extractors/valinet.py (typedef patterns of the six ietf-inet-types address / prefix types, shape of the store functions)",
+           "tools/extractors/valinst.py (shape of the instance-identifier store / print functions, quote characters, repair switches)",
            "tools/checks/valinst.py + the schema serialisation check of harness/api_types.c (instance-identifier schemas)", "harness/api_types.c"]
 
 
@@ -77,6 +81,24 @@ def classify(component, what, case):
     if law == "hex_nul_refused" and b"\x00" in val and case.get("got", ["err"])[0] == "ok" and ty.startswith("t:ietf-yang-types:") \
             and unhex(case["got"][1]) == val.split(b"\x00")[0].lower():
         return "F423"
+    # F425: the -no-zone inet plug-ins hand a strndup() copy to inet_pton and check nothing else: an embedded NUL truncates the value
+    if law == "inet_nul_refused" and b"\x00" in val and "-no-zone" in ty and case.get("got", ["err"])[0] == "ok":
+        return "F425"
+    # F426: a zone with non-ASCII letters / digits passes the typedef pattern ([\p{N}\p{L}]+) but the LYB store only takes isalnum bytes
+    if law == "inet_lyb_zone" and b"%" in val and any(c >= 0x80 for c in val.split(b"%", 1)[1]) and "LybZone" in " ".join(case.get("got", [])):
+        return "F426"
+    # F424: union with two leafref members: the sort callback finds neither value (realtype = the target's type) and returns 0
+    if ty.startswith("U(") and ty.count("lref(") >= 2 and law in ("sort_consistent_with_eq", "leaflist_order", "sort_total_order"):
+        from checks import valunion
+        ms = valunion.flatten(ty)
+
+        def two_lrefs(x, y):
+            mx, my = valunion.MEMBER_OF.get((ty, x)), valunion.MEMBER_OF.get((ty, y))
+            return mx is not None and my is not None and mx != my and ms[mx].startswith("lref(") and ms[my].startswith("lref(")
+        if law != "sort_total_order" and case.get("reply", [None] * 4)[1:3] == ["0", "0"] and two_lrefs(case.get("a_hex"), case.get("b_hex")):
+            return "F424"
+        if law == "sort_total_order" and case.get("c_hex") and (two_lrefs(case["a_hex"], case["b_hex"]) or two_lrefs(case["b_hex"], case["c_hex"])):
+            return "F424"
     # F410: identityref accepts an identity derived from some but not all of the bases
     if law == "identityref_accept_iff" and case.get("rfc") is None and case.get("got", ["err"])[0] == "ok" and len(case.get("bases", [])) > 1 \
             and any(case.get("derived_from_base", [])) and not all(case.get("derived_from_base", [])):
@@ -93,7 +115,7 @@ def classify(component, what, case):
         a, b = (case.get("a_hex"), case.get("b_hex")) if law == "eq_iff_canon_eq" else (case.get("value_hex"), case.get("canonical_hex"))
         ma, mb = valunion.MEMBER_OF.get((ty, a)), valunion.MEMBER_OF.get((ty, b))
         r = case.get("reply") if law == "eq_iff_canon_eq" else case.get("cmp")
-        if ma is not None and mb is not None and ma != mb and r and r[0] == "ok" and r[1] == "0" and r[2] != "0" and r[3] == "1":
+        if ma is not None and mb is not None and ma != mb and r and r[0] == "ok" and r[1] == "0" and r[3] == "1":
             return "F412"
     # F63: a JSON string carrying a 64-bit integer is parsed in base 0 (0x.., leading 0 = octal), the other sources in base 10
     if law in ("same_verdict_all_sources", "hints_base") and head in ("i64", "u64") and case.get("route") == "json-string" \
